@@ -681,7 +681,10 @@ def check(run):
                 ndel += 1
             if D.encodable(cur):
                 mlines.append("CHK %d 40 ST %s" % (lag, D.encode_state(cur)))
-                mexpect.append(("chk", D.consistent_py(tabs, cur), cur, part, None, None))
+                mexpect.append(("chk", "1" if D.consistent_py(tabs, cur) else "0", cur, part, None, None))
+                lk = D.monitor_links(cur)
+                mlines.append("MOP %d %d check %s" % (lag, FUEL, D.encode_mstate(cur, NATOMS)))
+                mexpect.append(("chk", "%d %d" % (0 if any(c != "A1" for c, _ in lk) else 1, 0 if any(c == "A1" for c, _ in lk) else 1), cur, part, None, None))
             bad = D.monitor(tabs, cur) + D.monitor_links(cur)
             need = D.need_counts(tabs, cur)
             leak = sum(1 for oi, ob in enumerate(cur["objs"]) for g, f in enumerate(ob["fs"]) if f[2] > need[oi][g])
@@ -734,9 +737,10 @@ def check(run):
         if ex[0] == "chk":
             _, pyverdict, cur, part, _, _ = ex
             run.count(ml, True)
-            run.dist("model:consistent_check=" + mo.strip())
-            if mo.strip() != ("1" if pyverdict else "0"):
-                run.mismatch("consistent_check", {"scenario": scenario(part), "model_case": ml}, "python monitor: %s" % pyverdict, mo[:50])
+            run.dist(("model:consistent_check=" if ml.startswith("CHK") else "model:wf_check,acct_check=") + mo.strip())
+            if mo.strip() != pyverdict:
+                run.mismatch("consistent_check" if ml.startswith("CHK") else "structure_check", {"scenario": scenario(part), "model_case": ml},
+                             "python monitor: %s" % pyverdict, mo[:50])
             continue
         if ex[0] == "mop":
             _, evop, cur, part, with_fs, _ = ex
